@@ -24,7 +24,7 @@ ASSUMPTIONS = [
 ]
 BUDGET = {
     "quick": {"examples": 4000, "wall": 300},
-    "thorough": {"examples": 24000, "wall": 2400},
+    "thorough": {"examples": 90000, "wall": 2400},
 }
 MANDATORY = {
     "quick": ["clause:a", "clause:b", "clause:c", "clause:d", "nontrivial:a", "nontrivial:b", "nontrivial:c", "nontrivial:d"],
